@@ -8,6 +8,7 @@ import Mathlib.Algebra.Order.Field.Rat
 import Mathlib.Data.List.Basic
 import Mathlib.Data.List.Nodup
 import Mathlib.Data.List.Count
+import Mathlib.Data.Rat.Floor
 
 /-! # Lemmas about the discrete-component models (scalar type `ℚ`) -/
 namespace Andes.Discrete
